@@ -1,6 +1,6 @@
 (* C13 — every superseded primary location is freed exactly once (as an invariant of every reachable state). *)
 From Coq Require Import List NArith.
-From STH Require Import Log Lex Index Store Refine GInv Full2 Codec Crash2 Statements Statements2.
+From STH Require Import Log Lex Index Store Refine GInv Full2 Codec Crash2 Statements Statements2 Budget Budget2 Statements6.
 Import ListNotations.
 Open Scope N_scope.
 
@@ -34,3 +34,12 @@ Theorem C13_superseded_busy_record_is_on_the_freelist :
     current s (Primary.slot_blk_of (pmax (spri s)) f lp k v) \/ In (Primary.slot_blk_of (pmax (spri s)) f lp k v) (free_blocks s).
 Proof. exact g_live. Qed.
 Print Assumptions C13_superseded_busy_record_is_on_the_freelist.
+
+(* ... and in every state reached by a history with TIME-LIMITED collector cycles anywhere (a primary cycle stopped after any file,
+   relocation included). *)
+Theorem C13_freelist_invariant_with_time_limited_gc :
+  forall bits imx pmx imm (U : bytes -> Prop) l,
+    bits < 32 -> 0 < imx -> 0 < pmx -> key_universe U -> gops_ok U (init bits imx pmx imm) l ->
+    G (grun_state (init bits imx pmx imm) l).
+Proof. exact greachable_freelist_invariant. Qed.
+Print Assumptions C13_freelist_invariant_with_time_limited_gc.
